@@ -10,7 +10,9 @@
    the tree [encrypt_doc] / [decrypt_doc] computes and evaluates [src_skeleton] on the implementation's input and
    output.  [skeleton] erases exactly the argument of every fn::secret, keeping in its place the comments of the
    text scalar; everything else is kept: kind, resolved tag, value, comments, order, flow/block of collections.
-   Accepted subset ([std_tree]): scalars with the core tags null/bool/int/float/str, no alias nodes. *)
+   Accepted subset ([std_tree]): scalars with the core tags null/bool/int/float/str, no alias nodes.
+   MarshalYAML's string case is modelled with the guard of fix 9b9d633 ([block_guard]: strings that start with a line
+   break or tab and contain a line feed are written double-quoted), with the prefix list read from the source. *)
 From Verif Require Import Base.Bytes Model.Envelope Model.YamlTree Model.Crypt Src.SrcEnvelope Src.SrcCrypt
      Proofs.YamlTreeProofs Proofs.CryptWalk Proofs.CryptProofs Proofs.CryptSkeleton Proofs.CryptDoc
      Proofs.CryptSem Proofs.CryptStrings Proofs.CryptExtras Proofs.CryptCodec Corr.CryptWire.
@@ -31,6 +33,12 @@ Theorem C12_src_names_wf :
   String.eqb crypt_fn_secret crypt_key_ciphertext = false /\ crypt_new_key = crypt_key_ciphertext
   /\ magic_first_ok src_params = true /\ plain_is_string crypt_new_key = true.
 Proof. exact (conj eq_refl (conj eq_refl (conj eq_refl eq_refl))). Qed.
+
+(* the guard MarshalYAML has today (Src/SrcCrypt.v marshal_block_prefixes / marshal_block_contains, read by srcfacts)
+   covers every string yaml.v3 cannot write as a block scalar: LF, tab, U+2028, U+2029 as first character of a text that
+   contains a line feed.  Stops compiling when the guard is removed, reshaped beyond recognition, or loses a prefix. *)
+Theorem C12_src_block_guard_ok : block_guard_ok = true.
+Proof. exact eq_refl. Qed.
 
 (* syntax.Walk (post-order) with the secret visitors is a top-down structural rewrite: visiting the children first
    never changes what parseSecret sees at the parent *)
@@ -69,14 +77,40 @@ Theorem C12_decrypt_keeps_trivia : forall pf cs c p,
 Proof. exact (fun pf => decrypt_keeps_trivia marshal_quote_words pf). Qed.
 
 (* strings stay strings.  (1) A string node is marshalled with the string tag (or none), its value unchanged, and
-   single-quoted when ParseFloat accepts it or it is one of the quoting words; otherwise its style is kept. *)
+   single-quoted when ParseFloat accepts it or it is one of the quoting words; otherwise double-quoted (block styles
+   cleared) when the guard of fix 9b9d633 fires on its style and text, and otherwise its style is kept. *)
 Theorem C12_strings_stay_strings : forall pf s v,
   (y_tag (marshal_str marshal_quote_words pf s v) = "" \/ y_tag (marshal_str marshal_quote_words pf s v) = tag_str)
   /\ y_value (marshal_str marshal_quote_words pf s v) = v
   /\ (needs_quote marshal_quote_words pf v = true -> y_style (marshal_str marshal_quote_words pf s v) = st_single)
   /\ (needs_quote marshal_quote_words pf v = false ->
-      y_style (marshal_str marshal_quote_words pf s v) = y_style (base_meta s)).
+      y_style (marshal_str marshal_quote_words pf s v) =
+      if block_guard (y_style (base_meta s)) v then force_double (y_style (base_meta s)) else y_style (base_meta s)).
 Proof. exact (marshal_str_facts marshal_quote_words). Qed.
+
+(* (1b) the guard in action and at rest: an unquoted literal-style "\nx\n" becomes double-quoted with the literal bit
+   cleared; a single-quoted one and a text without leading break keep their style *)
+Example C12_block_guard_example :
+  y_style (marshal_str marshal_quote_words (fun _ => false) (SynYaml (mkMeta tag_str st_literal "" "" "" "")) (hx "0a780a")) = st_double
+  /\ y_style (marshal_str marshal_quote_words (fun _ => false) (SynYaml (mkMeta tag_str st_single "" "" "" "")) (hx "0a780a")) = st_single
+  /\ y_style (marshal_str marshal_quote_words (fun _ => false) (SynYaml (mkMeta tag_str st_literal "" "" "" "")) (hx "780a79")) = st_literal
+  /\ block_unsafe_value (hx "0a780a") = true.
+Proof. exact (conj eq_refl (conj eq_refl (conj eq_refl eq_refl))). Qed.
+
+(* (1c) whatever EncryptSecrets / DecryptSecrets hand to the emitter contains no string the emitter mangles (the class of
+   the former known finding C12-blockscalar is empty on their outputs): every input tree, every cipher *)
+Theorem C12_encrypt_output_encodable : forall enc pf y y',
+  src_encrypt_doc enc pf y = ROk y' -> codec_unsafe y' = false.
+Proof.
+  exact (fun enc pf => encrypt_doc_encodable src_params _ _ _ enc _ _ pf (proj1 C12_src_names_wf)
+                                             (proj1 (proj2 C12_src_names_wf)) C12_src_block_guard_ok).
+Qed.
+
+Theorem C12_decrypt_output_encodable : forall dec pf y y',
+  src_decrypt_doc dec pf y = ROk y' -> codec_unsafe y' = false.
+Proof.
+  exact (fun dec pf => decrypt_doc_encodable src_params _ _ dec _ _ pf (proj1 C12_src_names_wf) C12_src_block_guard_ok).
+Qed.
 
 (* (2) whatever a secret decrypts to ("123", "null", "true", ...), it is written on a node that carries the explicit
    string tag of the ciphertext scalar it replaces *)
@@ -96,34 +130,39 @@ Proof.
                 (resolved_marshal_str marshal_quote_words pf s _ (proj2 (proj2 (proj2 C12_src_names_wf))))).
 Qed.
 
-(* ---- the text level: yaml.v3's codec is a collaborator ([yenc] emitter, [ydec] parser), assumed to give back the
-   content of an encodable tree ([encodable] excludes exactly the strings of known finding C12-blockscalar).  Then the
-   rewritten TEXT parses to a tree with the skeleton of the input text's tree.  The assumption is exercised on every
-   case of the correspondence check. *)
-Theorem C12_text_level_encrypt : forall (yenc : ynode -> option string) (ydec : string -> option ynode),
-  (forall n s, encodable n = true -> yenc n = Some s -> exists n', ydec s = Some n' /\ content n' = content n) ->
-  forall enc pf src out y,
+(* ---- the text level: yaml.v3's codec is a collaborator ([yenc] emitter, [ydec] parser).  It is assumed to give back
+   the content of a tree ONLY for the trees the rewrite itself produces from a parsed document of the accepted subset
+   (and that are encodable, which C12_encrypt_output_encodable / C12_decrypt_output_encodable prove they always are).
+   Nothing is assumed about synthetic trees (an untagged plain "123" is printed as 123 and read back as an integer by
+   the real codec, so no statement over all trees could hold of it).  Then the rewritten TEXT parses to a tree with the
+   skeleton of the input text's tree.  The assumption is what the correspondence check exercises on every case; it is
+   satisfiable on non-trivial data: C12_text_level_example instantiates it. *)
+Theorem C12_text_level_encrypt : forall (yenc : ynode -> option string) (ydec : string -> option ynode) enc pf,
+  (forall src y n s, ydec src = Some y -> std_tree y = true -> src_encrypt_doc enc pf y = ROk n -> encodable n = true ->
+                     yenc n = Some s -> exists n', ydec s = Some n' /\ content n' = content n) ->
+  forall src out y,
   ydec src = Some y -> std_tree y = true ->
   rewrite_text yenc ydec (src_encrypt_doc enc pf) src = Some out ->
-  (forall y', src_encrypt_doc enc pf y = ROk y' -> encodable y' = true) ->
   exists y2, ydec out = Some y2 /\ src_skeleton y2 = src_skeleton y.
 Proof.
-  exact (fun yenc ydec Hc enc pf =>
-           rewrite_text_skeleton crypt_fn_secret crypt_key_ciphertext yenc ydec Hc (src_encrypt_doc enc pf)
-                                 (C12_skeleton_preserved_encrypt enc pf)).
+  exact (fun yenc ydec enc pf Hc =>
+           rewrite_text_skeleton crypt_fn_secret crypt_key_ciphertext yenc ydec (src_encrypt_doc enc pf) Hc
+                                 (C12_skeleton_preserved_encrypt enc pf)
+                                 (fun y y' H => f_equal negb (C12_encrypt_output_encodable enc pf y y' H))).
 Qed.
 
-Theorem C12_text_level_decrypt : forall (yenc : ynode -> option string) (ydec : string -> option ynode),
-  (forall n s, encodable n = true -> yenc n = Some s -> exists n', ydec s = Some n' /\ content n' = content n) ->
-  forall dec pf src out y,
+Theorem C12_text_level_decrypt : forall (yenc : ynode -> option string) (ydec : string -> option ynode) dec pf,
+  (forall src y n s, ydec src = Some y -> std_tree y = true -> src_decrypt_doc dec pf y = ROk n -> encodable n = true ->
+                     yenc n = Some s -> exists n', ydec s = Some n' /\ content n' = content n) ->
+  forall src out y,
   ydec src = Some y -> std_tree y = true ->
   rewrite_text yenc ydec (src_decrypt_doc dec pf) src = Some out ->
-  (forall y', src_decrypt_doc dec pf y = ROk y' -> encodable y' = true) ->
   exists y2, ydec out = Some y2 /\ src_skeleton y2 = src_skeleton y.
 Proof.
-  exact (fun yenc ydec Hc dec pf =>
-           rewrite_text_skeleton crypt_fn_secret crypt_key_ciphertext yenc ydec Hc (src_decrypt_doc dec pf)
-                                 (C12_skeleton_preserved_decrypt dec pf)).
+  exact (fun yenc ydec dec pf Hc =>
+           rewrite_text_skeleton crypt_fn_secret crypt_key_ciphertext yenc ydec (src_decrypt_doc dec pf) Hc
+                                 (C12_skeleton_preserved_decrypt dec pf)
+                                 (fun y y' H => f_equal negb (C12_decrypt_output_encodable dec pf y y' H))).
 Qed.
 
 (* the skeleton is a function of the content: equal content (what the correspondence compares) gives equal skeleton *)
@@ -200,3 +239,27 @@ Example C12_example :
      | RErr _ => false
      end = true.
 Proof. exact (conj eq_refl eq_refl). Qed.
+
+(* ---- the text level instantiated: a toy codec (a book of two texts: the example document and the re-read form of its
+   encryption with the toy cipher).  Every book is a codec in the sense assumed above (book_codec_round_trip, on all
+   trees), [yenc] is NOT constantly None on the image of the rewrite, and the theorem yields a concrete output text whose
+   tree differs from the input's and has its skeleton. *)
+Definition ex_out : ynode :=
+  match m_encrypt_doc 90 1 ex_doc with ROk y' => resolved y' | RErr _ => ex_doc end.
+Definition ex_book : book := [("doc.yaml", ex_doc); ("doc.enc.yaml", ex_out)].
+
+Theorem C12_book_is_a_codec : forall (b : book) n s,
+  book_enc b n = Some s -> exists n', book_dec b s = Some n' /\ content n' = content n.
+Proof. exact book_codec_round_trip. Qed.
+
+Example C12_text_level_example :
+  rewrite_text (book_enc ex_book) (book_dec ex_book) (m_encrypt_doc 90 1) "doc.yaml" = Some "doc.enc.yaml"
+  /\ (exists y2, book_dec ex_book "doc.enc.yaml" = Some y2 /\ src_skeleton y2 = src_skeleton ex_doc)
+  /\ ynode_eqb ex_out ex_doc = false.
+Proof.
+  exact (conj eq_refl
+          (conj (C12_text_level_encrypt (book_enc ex_book) (book_dec ex_book) (toy_enc 90 1) no_pf
+                   (fun src y n s _ _ _ _ H => book_codec_round_trip ex_book n s H)
+                   "doc.yaml" "doc.enc.yaml" ex_doc eq_refl eq_refl eq_refl)
+                eq_refl)).
+Qed.
